@@ -17,7 +17,9 @@ HAZ = ["-", "+", "*", "#", "##", ">", "1.", "2)", "10.", "-x", "#tag", "1.5", "|
 INLINE = ["*em*", "**strong**", "`code`", "`a b`", "[link](http://x.y)", "[l k](http://x.y/a_b \"T\")", "[w](http://x.y/t \"T  w\")", "![img](i.png)", "[t](http://r.ef/x)", "[t2](http://r.ef/x \"Other\")", "![i2](http://r.ef/x)",
           "<http://auto.link>", "http://bare.url/x", "www.example.com/p", "<https://e.com/o'neil>", "https://e.com/what's-new...x", "<b>", "</b>", "<span class=\"x y\">", "~~gone~~", "[^fn]", "[ref]",
           "`超时timeout`", "`a `", "` b`", "`> `", "[文档](http://x.y/部署v2/ \"标题T\")", "<span title=\"中文abc\">", "<http://x.y/部署v2>", "![img](i/图a.png)",
-          "\\*lit\\*", "2023\\.", "7\\)", "\\# no", "\"quoted\"", "it's", "wait...", "a_b_c", "2*3*4", "&amp;", "x<y"]
+          "\\*lit\\*", "2023\\.", "7\\)", "\\# no", "\"quoted\"", "it's", "wait...", "a_b_c", "2*3*4", "&amp;", "x<y",
+          # delimiter runs whose flanking depends on the neighbouring character (also a line break), intraword and nested emphasis
+          "~(old)~", "~was it?~", "foo***bar***baz", "a*b*c", "***both***"]
 TAGS = ["{% t %}", "{% /t %}", "{{ v }}", "{# c #}", "<!-- h -->", "{% a x=\"1 2\" %}", "{% t %}{% /t %}", "<!-- a --><!-- /a -->",
         "{% p l=\"50% used\" %}", "{{ i % 2 }}", "{# 10 # 2 #}", "<!-- a - b -> c -->"]
 HAZ_UNESCAPED = ["---", "===", "```", "~~~", "***", "___", ">q", "- - -", "----"]     # known finding C01-escape-hazards
@@ -173,6 +175,8 @@ def document(rnd, with_tags=False, nblocks=None, hazards=True):
 
 # hand-written documents for interplays the random blocks rarely produce; appended to every sweep
 TARGETED = [
+    # escaped block markers directly after a soft break, and runs of bare hard breaks
+    "alpha\n1\\. beta\n", "alpha\n\\- beta and\n\\# gamma\n", "Before  \n\\\n\\\n\\\nAfter\n", "- a\\\n  \\\n  \\\n  \\\n  b\n",
     # a whole document indented uniformly (docstring style): dedented, not turned into code
     "    First paragraph of an indented text.\n\n    Second paragraph here.\n\n    - item one\n    - item two\n",
     "  Intro line\n  continues here.\n\n      real code\n\n  Back to text.\n",
